@@ -1389,7 +1389,23 @@ func (z *Decimal) Sub(x, y *Decimal) *Decimal {
 
 	// ±0 - y
 	// x - ±Inf
-	return z.Neg(y)
+	// The sign must be final before rounding (see round), so z.Neg(y),
+	// which rounds y and then flips the sign, cannot be used here.
+	z.acc = Exact
+	if z == y {
+		z.neg = !z.neg
+		return z
+	}
+	z.form = y.form
+	z.neg = !y.neg
+	if y.form == finite {
+		z.exp = y.exp
+		z.mant = z.mant.set(y.mant)
+	}
+	if z.prec < y.prec {
+		z.round(0)
+	}
+	return z
 }
 
 // Uint64 returns the unsigned integer resulting from truncating x
